@@ -27,14 +27,15 @@ set_option linter.unusedSimpArgs false
 namespace Pdt.C06
 open Pdt Pdt.Convert
 
-/-- tie to source: proxy.py `INCONVERTIBLE_UNIT_INDICATORS` as translated on this run -/
+/-- tie to source: proxy.py `INCONVERTIBLE_UNIT_INDICATORS` as translated on this run (the translator sorts the
+    literal: only membership is used by the code) -/
 theorem inconvertible_pinned :
-    Gen.inconvertibleUnits = ["text".toList, "datetime".toList, "onoff".toList] := by decide
+    Gen.inconvertibleUnits = ["datetime".toList, "onoff".toList, "text".toList] := by decide
 
 namespace Spec
 
 /-- unit text, datetime or onoff -/
-def special (u : Str) : Bool := u == "text".toList || u == "datetime".toList || u == "onoff".toList
+def special (u : Str) : Bool := u == "datetime".toList || u == "onoff".toList || u == "text".toList
 
 /-- the column is asked for a unit other than the one it has -/
 def targeted (c : Col) : Option Str → Bool
